@@ -24,14 +24,15 @@ HARNESSES = [
   # ---- binary apply: T any table, C cube, K constant; OPSEL -1 = drawn among plus mod n / max / min / xor
   H('apply2', 'apply.cc',
     [M(2, KIND=0, FSRC='C', GSRC='C', OPSEL=-1), M(2, KIND=0, FSRC='T', GSRC='C', OPSEL=0), M(2, 2, KIND=0, FSRC='T', GSRC='T', OPSEL=-1),
-     M(3, 2, KIND=0, FSRC='C', GSRC='C', OPSEL=3), M(2, VBASE=3, KIND=0, FSRC='C', GSRC='C', OPSEL=-1, ORDER=1), M(2, KIND=0, FSRC='T', GSRC='K', OPSEL=-1)],
+     M(3, 2, KIND=0, FSRC='C', GSRC='C', OPSEL=3), M(2, VBASE=3, KIND=0, FSRC='C', GSRC='C', OPSEL=-1, ORDER=1), M(2, KIND=0, FSRC='T', GSRC='K', OPSEL=-1), M(3, 2, KIND=0, FSRC='T', GSRC='K', OPSEL=-1), M(3, 2, KIND=0, FSRC='C', GSRC='T', OPSEL=0)],
     [M(2, KIND=0, FSRC='T', GSRC='T', OPSEL=0, **SLOW), M(2, KIND=0, FSRC='T', GSRC='T', OPSEL=1, **SLOW), M(2, KIND=0, FSRC='T', GSRC='T', OPSEL=2, ORDER=1, **SLOW),
      M(2, KIND=0, FSRC='T', GSRC='T', OPSEL=3, ORDER=1, **SLOW), M(3, KIND=0, FSRC='C', GSRC='C', OPSEL=0), M(3, 2, KIND=0, FSRC='T', GSRC='C', OPSEL=3),
      M(3, 2, KIND=0, FSRC='C', GSRC='C', OPSEL=-1), M(3, 2, KIND=0, FSRC='T', GSRC='T', OPSEL=1, _heavy=1, **SLOW)],
     selftest_config=M(2, 2, KIND=0, FSRC='T', GSRC='T', OPSEL=-1)),
-  H('apply1', 'apply.cc', [M(2, KIND=1, FSRC='T', GSRC='K', OPSEL=-1), M(3, 2, KIND=1, FSRC='C', GSRC='C', OPSEL=-1)],
+  H('apply1', 'apply.cc', [M(2, KIND=1, FSRC='T', GSRC='K', OPSEL=-1), M(3, 2, KIND=1, FSRC='C', GSRC='C', OPSEL=-1), M(3, 2, KIND=1, FSRC='T', GSRC='K', OPSEL=-1)],
     [M(2, KIND=1, FSRC='T', GSRC='C', OPSEL=-1), M(3, KIND=1, FSRC='C', GSRC='K', OPSEL=-1)], selftest_config=M(2, KIND=1, FSRC='T', GSRC='K', OPSEL=-1)),
-  H('apply3', 'apply.cc', [M(2, KIND=2, FSRC='C', GSRC='C', HSRC='K', OPSEL=0), M(2, 2, KIND=2, FSRC='T', GSRC='T', HSRC='T', OPSEL=1), M(2, KIND=2, FSRC='C', GSRC='K', HSRC='C', OPSEL=2)],
+  H('apply3', 'apply.cc', [M(2, KIND=2, FSRC='C', GSRC='C', HSRC='K', OPSEL=0), M(2, 2, KIND=2, FSRC='T', GSRC='T', HSRC='T', OPSEL=1), M(2, KIND=2, FSRC='C', GSRC='K', HSRC='C', OPSEL=2),
+     M(3, 2, KIND=2, FSRC='T', GSRC='K', HSRC='K', OPSEL=1)],      # fourth round: any table over 3 variables (an internal node reached over two paths: memo hits)
     [M(2, KIND=2, FSRC='C', GSRC='C', HSRC='K', OPSEL=-1), M(2, 2, KIND=2, FSRC='T', GSRC='T', HSRC='T', OPSEL=-1), M(3, 2, KIND=2, FSRC='C', GSRC='C', HSRC='K', OPSEL=3), M(2, KIND=2, FSRC='T', GSRC='C', HSRC='K', OPSEL=0, **SLOW)]),
   H('optree', 'apply.cc', [M(2, 2, KIND=3, FSRC='T', GSRC='T', OPSEL=-1), M(2, KIND=3, FSRC='C', GSRC='C', OPSEL=0)],
     [M(2, KIND=3, FSRC='T', GSRC='C', OPSEL=1), M(2, KIND=3, FSRC='C', GSRC='C', OPSEL=-1, **SLOW)]),
@@ -46,7 +47,7 @@ HARNESSES = [
   H('project', 'shape.cc', [M(2, KIND=0, PRJOP=1), M(2, KIND=0, PRJOP=0), M(3, 2, KIND=0, PRJOP=2)],
     [M(2, KIND=0, PRJOP=2, ORDER=1), M(3, 2, KIND=0, PRJOP=1), M(3, 2, KIND=0, PRJOP=0), M(2, VBASE=3, KIND=0, PRJOP=1), M(3, KIND=0, PRJOP=0, FSRC='D')]),
   H('rename', 'shape.cc', [M(2, KIND=1), M(3, 2, KIND=1)], [M(2, VBASE=3, KIND=1), M(3, KIND=1, FSRC='D')]),
-  H('extend', 'shape.cc', [M(2, KIND=2), M(3, 2, KIND=2, FSRC='D')], [M(3, KIND=2, FSRC='D'), M(2, VBASE=3, KIND=2, FSRC='D'), M(3, 2, KIND=2)]),
+  H('extend', 'shape.cc', [M(2, KIND=2), M(3, 2, KIND=2, FSRC='D'), M(2, KIND=2, FSRC='K'), M(2, 2, KIND=2, FSRC='D')], [M(3, KIND=2, FSRC='D'), M(2, VBASE=3, KIND=2, FSRC='D'), M(3, 2, KIND=2)]),
   H('prefix', 'shape.cc', [M(2, KIND=3), M(3, 2, KIND=3)], [M(2, VBASE=3, KIND=3), M(3, KIND=3, FSRC='D')]),
 ]
 
